@@ -148,6 +148,10 @@ def r7_7(ctx):
         if bb in g.reachable and t["k"] == "assert" and t["assert_kind"] == "bounds":
             kg += 1
             ok, d = giv.assert_holds(bb)
+            if not ok:
+                how = _first_element_inside_own_iteration(g, bb)
+                if how:
+                    ok, d = True, how
             ctx.ob("get_best_move:index#%d" % kg, ok, g.where(g.term_loc(bb)), d)
     by_callee = {}
     for (callee, _c), sub in giv.sub_analyses.items():
@@ -164,6 +168,35 @@ def r7_7(ctx):
                 bad = [r[1] for r in res if not r[0]]
                 ctx.ob("get_best_move>%s:index#%d" % (callee.split("::")[-1], kk), not bad, cb.where(cb.term_loc(bb)),
                        bad[0] if bad else "%s (in %d calling contexts)" % (res[0][1], len(res)))
+
+
+def _first_element_inside_own_iteration(g, bb):
+    """`xs[0]` evaluated inside `for x in xs` (the fallback `moves[0]` in the loop over `moves`): the loop
+    body runs only when the iterator yielded an element, so the collection is not empty.  Holds when the
+    index is the constant 0 and the check is dominated by the `Some` edge of `next()` on an iterator over
+    the collection whose length is tested (a shared borrow: it cannot shrink meanwhile)."""
+    from wa.expr import Exprs
+    from wa import loopform
+    ex = Exprs(g)
+    t = g.term(bb)
+    loc = g.term_loc(bb)
+    ops = [ex.operand(o, loc) for o in t.get("ops", [])]
+    if len(ops) != 2 or ops[1] != ("const", 0) or ops[0][0] != "len":
+        return None
+    ty = None
+    roots = set()
+    for cand in ("std::vec::Vec<board::BoardState>",):
+        r = loopform.receiver_roots(g, ex, ops[0][1], cand)
+        if r:
+            roots, ty = r, cand
+    if not roots:
+        return None
+    for x, call, some, none in loopform.next_switches(g, ex):
+        if some is None or not (some == bb or g.edge_dominates((x, some), bb)):
+            continue
+        if loopform.receiver_roots(g, ex, call, ty) & roots:
+            return "I6: element 0 of `%s` inside the loop that iterates it (non-empty there)" % g.lname(sorted(roots)[0])
+    return None
 
 
 def r7_8(ctx):
